@@ -94,12 +94,12 @@ func runC42(c *Ctx) {
 			}
 			switch a := addr.(type) {
 			case *ssa.Alloc:
-				if vars[a.Comment] && a.Parent() == fn {
-					return a.Comment
+				if vars[u.VarName(a)] && a.Parent() == fn {
+					return u.VarName(a)
 				}
 			case *ssa.FreeVar:
-				if vars[a.Name()] {
-					return a.Name()
+				if vars[u.VarName(a)] {
+					return u.VarName(a)
 				}
 			}
 			return ""
